@@ -4,7 +4,7 @@
 From Coq Require Import List NArith ZArith Arith Lia Bool.
 From Coq Require Import Init.Byte.
 From OKE Require Import Bytes Suite Generated Hkdf Voprf Messages Envelope TripleDH Opaque Api.
-From OKE Require Import Laws Codecs Honest Substituted Accept Bad KeySeparation WrongCredential AcceptedLogin World WorldCrash CrashInv FreshRanges HonestWorld Toy.
+From OKE Require Import Laws Codecs Honest Substituted Accept Bad KeySeparation WrongCredential AcceptedLogin World WorldCrash CrashInv FreshRanges HonestWorld WrongPassword WorldInv Toy.
 Import ListNotations.
 
 Definition tape0 : bytes := map (fun i => n2b (N.of_nat (i * 37 + 11))) (seq 0 300).
@@ -244,3 +244,63 @@ Proof.
            _ _ _ _ _ _ _ _ _ _ _ _ _ 0 cli0 1 srv1 H0 toy_hw_good H1 H2 H3
            toy_hw_c toy_hw_pw toy_hw_s toy_hw_file toy_hw_cred toy_hw_ids toy_hw_rq toy_hw_nr).
 Qed.
+
+(* C02 on the toy suite: the same registration, a login with ANOTHER password against the honest server on the
+   registration's record: the client's final step fails with the invalid-login error (evaluated); and the theorem,
+   every law discharged, says an acceptance would have exhibited a collision *)
+Definition pw_other : bytes := [x70; x61; x73; x74].
+Definition r4w := the (d_clog, d_rq, []) (client_login_start TOY (snd r3) pw_other).
+Definition r5w := the (d_slog, d_resp, [], ([], []))
+  (server_login_start TOY (private_key_ops (ke TOY)) (snd r4w) setup0 (Some (server_registration_finish upload0)) (snd (fst r4w)) cred0 (Some [x78]) ids0).
+Lemma toy_C02_pw1 : ve TOY (o_h2g (oprf TOY) pw_other (dst_hash_to_group (oprf TOY))).
+Proof. apply ve_iff; vm_compute; split; reflexivity. Qed.
+Lemma toy_C02_start : client_login_start TOY (snd r3) pw_other = Ok (fst (fst r4w), snd (fst r4w), snd r4w).
+Proof. vm_compute. reflexivity. Qed.
+Lemma toy_C02_server :
+  server_login_start TOY (private_key_ops (ke TOY)) (snd r4w) setup0 (Some (server_registration_finish upload0)) (snd (fst r4w)) cred0 (Some [x78]) ids0
+    = Ok (fst (fst (fst r5w)), snd (fst (fst r5w)), snd (fst r5w), snd r5w).
+Proof. vm_compute. reflexivity. Qed.
+Example toy_C02_wrong_password_rejected :
+  pw_other <> pw0 /\ client_login_finish TOY (fst (fst r4w)) pw_other (snd (fst (fst r5w))) (Some [x78]) ids0 None = Err EInvalidLogin.
+Proof. split; [discriminate | vm_compute; reflexivity]. Qed.
+Example toy_C02_theorem_instance :
+  forall out, client_login_finish TOY (fst (fst r4w)) pw_other (snd (fst (fst r5w))) (Some [x78]) ids0 None = Ok out -> BadS TOY.
+Proof.
+  intros out Hacc.
+  destruct toy_premises_of_C01 as (HP & H0 & H1 & H2 & H3 & _).
+  exact (wrong_password_never_accepted TOY toy_hash_laws toy_group_laws Z.eq_dec
+           _ _ _ _ _ _ _ _ _ _ _ _ _ _ _ _ _ _ _ _ _ _ _ _ _ HP toy_C02_pw1 H0 H1 H2 H3
+           (proj1 toy_C02_wrong_password_rejected) toy_C02_start toy_C02_server Hacc).
+Qed.
+
+(* C07 on the toy suite: the world of the three attempts, then the adversary delivers the real record's response
+   (server session 1) to client session 0 and that client's finalization to server session 1: one client and one
+   server completion; the theorems on every reachable world, every law discharged, then give the matching
+   conversation (or a collision of the toy hash) and the accepted finalization's MAC *)
+Definition d_cdone : CliDone (E := Z) (Pk := Z) :=
+  {| cd_client := 0; cd_resp := d_resp; cd_ctx := None; cd_ids := ids0; cd_fin := {| cf_mac := [] |}; cd_key := []; cd_export := []; cd_spk := 0%Z |}.
+Definition hist2a := hist1 ++ [OClientFinish 0 (sv_resp srv1) (Some [x78]) ids0].
+Definition done0 := nth 0 (w_cdone (run TOY (init setup0 (snd r3)) hist2a)) d_cdone.
+Definition hist2 := hist2a ++ [OServerFinish 1 (cd_fin done0)].
+Definition d_sdone : SrvDone := {| sd_server := 0; sd_fin := {| cf_mac := [] |}; sd_key := [] |}.
+Definition sdone0 := nth 0 (w_sdone (run TOY (init setup0 (snd r3)) hist2)) d_sdone.
+Lemma toy_C07_cd : In done0 (w_cdone (run TOY (init setup0 (snd r3)) hist2)). Proof. vm_compute. left. reflexivity. Qed.
+Lemma toy_C07_sd : In sdone0 (w_sdone (run TOY (init setup0 (snd r3)) hist2)). Proof. vm_compute. left. reflexivity. Qed.
+Lemma toy_C07_srv : In srv1 (w_srv (run TOY (init setup0 (snd r3)) hist2)). Proof. vm_compute. right. left. reflexivity. Qed.
+Lemma toy_C07_file : sv_file srv1 = Some (server_registration_finish upload0). Proof. vm_compute. reflexivity. Qed.
+Lemma toy_C07_mac : k2_mac (cr_ke2 (cd_resp done0)) = k2_mac (cr_ke2 (sv_resp srv1)). Proof. vm_compute. reflexivity. Qed.
+Lemma toy_C07_cli : nth_error (w_cli (run TOY (init setup0 (snd r3)) hist2)) (cd_client done0) = Some cli0. Proof. vm_compute. reflexivity. Qed.
+Example toy_C07_completions :
+  length (w_cdone (run TOY (init setup0 (snd r3)) hist2)) = 1 /\ length (w_sdone (run TOY (init setup0 (snd r3)) hist2)) = 1 /\ cd_key done0 = sd_key sdone0 /\ cd_key done0 <> [].
+Proof. vm_compute. repeat split; discriminate. Qed.
+Example toy_C07_matched_instance :
+  (cd_key done0 = sl_session_key (sv_state srv1) /\  match cd_ctx done0 with Some x => x | None => [] end = match sv_ctx srv1 with Some x => x | None => [] end)
+  \/ Bad (hash TOY).
+Proof.
+  destruct (matched_conversations TOY toy_hash_laws toy_group_laws setup0 (snd r3) hist2 done0 srv1 _
+              toy_C07_cd toy_C07_srv toy_C07_file toy_C07_mac cli0 toy_C07_cli) as [(_ & _ & _ & _ & Hc & Hk)|HB];
+    [vm_compute; reflexivity | vm_compute; reflexivity | vm_compute; reflexivity | left; split; assumption | right; exact HB].
+Qed.
+Example toy_C07_server_completion_instance :
+  exists s, nth_error (w_srv (run TOY (init setup0 (snd r3)) hist2)) (sd_server sdone0) = Some s /\   cf_mac (sd_fin sdone0) = h_hmac (hash TOY) (sl_km3 (sv_state s)) (sl_hashed_transcript (sv_state s)) /\   sd_key sdone0 = sl_session_key (sv_state s).
+Proof. exact (server_completions TOY setup0 (snd r3) hist2 sdone0 toy_C07_sd). Qed.
